@@ -176,7 +176,7 @@ def check_calculate(ctx, fn: FuncInfo, tag: str) -> None:
             n2 += 1
             c = st.value
             tg = [norm(e) for e in st.targets[0].elts] if isinstance(st.targets[0], ast.Tuple) else [norm(st.targets[0])]
-            args = [norm(a) for a in c.args]
+            args = [_hoisted(fn, a) for a in c.args]
             prod = next((p for p in PAIRS if tg and tg[0] == f'self.{p}Revenue.value'), None)
             key = f'{tag}/CalculateRevenue->{tg[0] if tg else "?"}'
             where = f'{rel}:{st.lineno}'
@@ -280,7 +280,7 @@ def check_calculate(ctx, fn: FuncInfo, tag: str) -> None:
     calls = [c for c in calls_in(fn.node) if dotted_name(c.func) == 'CalculateFinancialPerformance']
     ctx.require(len(calls) == 1, f'{tag}: CalculateFinancialPerformance call not found')
     c = calls[0]
-    args = [norm(a) for a in c.args]
+    args = [_hoisted(fn, a) for a in c.args]
     want = [LIFE, 'self.FixedInternalRate.value', 'self.TotalRevenue.value', 'self.TotalCummRevenue.value', 'self.CCap.value',
             'self.Coam.value', 'self.discount_initial_year_cashflow.value']
     ctx.check(args == want or args == want[:-1], 'K4', f'{tag}/financial-performance-arguments', f'{rel}:{c.lineno}',
@@ -516,6 +516,18 @@ def check_revenue_after_energy_adjustments(ctx) -> None:
                     f'adjusted series')
         else:
             ctx.ok('K8', key, f'{g.module.rel}:{top[first].lineno}', f'no later Calculate call rewrites {sorted(reads)[:4]}...')
+
+
+def _hoisted(fn, a: ast.AST) -> str:
+    """text of an argument, read through a hoisted scalar: a local bound exactly once in the function, to a plain attribute path
+    (`lifetime = model.surfaceplant.plant_lifetime.value`), is that path"""
+    if isinstance(a, ast.Name):
+        defs = [st for st in ast.walk(fn.node) if isinstance(st, (ast.Assign, ast.AnnAssign)) and
+                any(isinstance(t, ast.Name) and t.id == a.id for t in (st.targets if isinstance(st, ast.Assign) else [st.target]))]
+        others = [x for x in ast.walk(fn.node) if isinstance(x, ast.Name) and x.id == a.id and isinstance(x.ctx, ast.Store)]
+        if len(defs) == 1 and len(others) == 1 and defs[0].value is not None and isinstance(defs[0].value, ast.Attribute) and dotted_name(defs[0].value):
+            return norm(defs[0].value)
+    return norm(a)
 
 
 LIST_MUTATORS = {'insert', 'append', 'extend', 'pop', 'remove', 'sort', 'reverse', 'clear', 'fill', 'resize', 'put'}
